@@ -32,10 +32,12 @@ type poolRig struct {
 	maxFlight atomic.Int64
 	idsMu     sync.Mutex
 	ids       []string
+	live      map[*f1testing.T]int // handles of iterations currently executing
+	sharedHandle int
 	accepted  atomic.Int64 // sum of numJobs of Trigger calls that passed the context check
 }
 
-func newPoolRig(w int, limit uint64, gated bool) *poolRig {
+func newPoolRigBase(limit uint64, gated bool) *poolRig {
 	r := &poolRig{stats: &progress.Stats{}, gate: make(chan struct{}, 1<<16)}
 	sc := &scenarios.Scenario{Name: "s"}
 	sc.RunFn = func(t *f1testing.T) {
@@ -49,10 +51,20 @@ func newPoolRig(w int, limit uint64, gated bool) *poolRig {
 		}
 		r.idsMu.Lock()
 		r.ids = append(r.ids, t.Iteration)
+		if r.live == nil {
+			r.live = map[*f1testing.T]int{}
+		}
+		r.live[t]++
+		if r.live[t] > 1 {
+			r.sharedHandle++
+		}
 		r.idsMu.Unlock()
 		if gated {
 			<-r.gate
 		}
+		r.idsMu.Lock()
+		r.live[t]--
+		r.idsMu.Unlock()
 		r.inflight.Add(-1)
 		r.completed.Add(1)
 	}
@@ -60,6 +72,11 @@ func newPoolRig(w int, limit uint64, gated bool) *poolRig {
 	m := metrics.NewInstance(prometheus.NewRegistry(), true, nil)
 	as := workers.NewActiveScenario(sc, m, r.stats, logger, log.NewSlogLogrusLogger(logger))
 	r.manager = workers.New(limit, as)
+	return r
+}
+
+func newPoolRig(w int, limit uint64, gated bool) *poolRig {
+	r := newPoolRigBase(limit, gated)
 	r.pool = r.manager.NewTriggerPool(w)
 	ctx, cancel := context.WithCancel(context.Background())
 	r.cancel = cancel
